@@ -15,6 +15,7 @@ from __future__ import annotations
 from collections.abc import Iterator
 import math
 import random
+import struct
 from typing import Any
 
 from xknx.dpt import DPTArray, DPTBinary
@@ -275,3 +276,82 @@ def same_value(a: Any, b: Any) -> bool:
 
 def zero_spec(T: type[DPTBase]) -> Spec:
     return ("b", 0) if is_binary(T) else ("a", bytes(T.payload_length))
+
+
+# --------------------------------------------------------------------------- accepted-payload domains (C08, C10)
+
+DATETIME_BG = [bytes((124, 6, 15, (3 << 5) | 12, 30, 45, 0x00, 0x00)), bytes((0, 12, 31, 24, 0, 0, 0x40, 0xC0)), bytes((255, 1, 1, 0xE0 | 23, 59, 59, 0x81, 0x80))]
+
+
+def f32_specs(rng: random.Random, n: int) -> Iterator[Spec]:
+    """Structured DPT 14 payloads: decimal boundaries, denormals, specials, random magnitudes."""
+    vals = [0.0, -0.0, 1.0, -1.0, 0.1, 0.29, 1e-45, 1.1754942e-38, 1.17549435e-38, 3.4028235e38, -3.4028235e38, float("inf"), float("-inf"), 16777216.0, 16777217.0, 8.59e9, 9.999999e9]
+    for k in range(-44, 39):
+        vals += [10.0**k, 9.9999995 * 10.0**k, 1.0000001 * 10.0**k, 9.999999 * 10.0**k]
+    for v in vals:
+        try:
+            yield ("a", struct.pack(">f", v))
+        except OverflowError:
+            pass
+    yield ("a", bytes.fromhex("7fc00000"))  # NaN
+    yield ("a", bytes.fromhex("ffc00001"))
+    for _ in range(n):
+        m = rng.uniform(1, 10) * 10.0 ** rng.randint(-44, 38)
+        try:
+            yield ("a", struct.pack(">f", m if rng.random() < 0.5 else -m))
+        except OverflowError:
+            pass
+
+
+def representative(T: type[DPTBase]) -> bool:
+    """True for the first class of each codec family (same owner and resolution)."""
+    lab = codec_label(T)
+    for c in all_dpt_classes():
+        if codec_label(c) == lab:
+            return c is T
+    return True
+
+
+def roundtrip_specs(T: type[DPTBase], rng: random.Random, quick: bool, n_f32: int, n_random: int) -> Iterator[Spec]:
+    """Payloads of T's own shape for the round-trip checks.
+
+    Exhaustive for DPTBinary types and <= 2-octet arrays.  Longer: every octet value in
+    every position over 7(+3) backgrounds, all 65536 values of adjacent octet pairs over
+    flags-valid backgrounds (first class of each codec family only - the others share
+    the code; quick tier: even-aligned pairs over one background), structured binary32
+    payloads for 4-octet types, seeded random arrays."""
+    n = T.payload_length
+    if is_binary(T) or n <= 2:
+        yield from own_shape_specs(T, rng, 0)
+        return
+    extra = DATETIME_BG if T.__name__ == "DPTDateTime" else []
+    yield from positional_sweep(n, rng, n_random_bg=3, extra_bg=extra)
+    pair_bgs = [bytes([0xFF]) * n, bytes(n)] + extra[:1]
+    if n <= 8 and representative(T):
+        for bg in pair_bgs[: 1 if quick else 3]:
+            for pos in range(0, n - 1, 2 if quick else 1):
+                yield from pair_sweep(n, pos, pos + 1, bg)
+    if n == 4:
+        yield from f32_specs(rng, n_f32)
+    yield from random_array_specs(n, rng, n_random)
+
+
+def fail_capped(ctx: Any, bucket: str, inp: Any, detail: Any, cap: int = 300) -> None:
+    """ctx.fail, but after `cap` recorded cases of a bucket (per shard) only count the rest.
+
+    `detail` may be a zero-argument callable so that the text is only built when kept."""
+    if ctx.fail_counts[bucket] >= cap:
+        ctx.fail_counts[bucket] += 1
+        return
+    ctx.fail(bucket, inp() if callable(inp) else inp, detail() if callable(detail) else detail)
+
+
+def cause_site(e: BaseException) -> str:
+    """Root-cause key of a wrapped error: vk.core.exc_site of the innermost __cause__."""
+    from vk.core import exc_site
+
+    seen = 0
+    while e.__cause__ is not None and seen < 10:
+        e = e.__cause__
+        seen += 1
+    return exc_site(e)
